@@ -1,5 +1,5 @@
 /-
-C10 helpers, part 4: one evaluation step cut into named stages (`lookup`, `initRes`, `predEval`, `prep`, `finish`, `admit`),
+C10 helpers, part 4: one evaluation step cut into named stages (`lookup`, `initRes`, `predEval`, `prep`, `finish`, `admitTo`),
 the unfolding equations of `evalChain` / `evalArgs` in terms of them, and the `Stage` specification of every stage.
 -/
 import LiquerProofs.Lemmas.Iso3
@@ -14,7 +14,7 @@ def prep (w1 : World) (pred : HState) : World × HState :=
   if (w1.heap.metaAt pred.md).volatile then (w1, pred)
   else ({ w1 with heap := (cloneState w1.heap pred).1 }, (cloneState w1.heap pred).2)
 
-def admit (w5 : World) (key : Str) (st : HState) (ok : Bool) : World :=
+def admitTo (w5 : World) (key : Str) (st : HState) (ok : Bool) : World :=
   if ok then w5.store key st else w5.remove key
 
 def finish (key : Str) (pvol : Bool) (w3 : World) (old : HState) (name : Str) (args : List HV) : World × Res :=
@@ -26,7 +26,7 @@ def finish (key : Str) (pvol : Bool) (w3 : World) (old : HState) (name : Str) (a
     let m' := { m with query := key, status := statusReady, isError := false, volatile := pvol || vol,
                        caching := m.caching && caching }
     let st : HState := { data := data, md := old.md }
-    (admit { w3 with heap := h4.write old.md (.md m') } key st (m'.caching && !m'.volatile), .st st)
+    (admitTo { w3 with heap := h4.write old.md (.md m') } key st (m'.caching && !m'.volatile), .st st)
 
 
 theorem evalChain_hit {n : Nat} {w w' : World} {absolute : Bool} {acts : List Act} {st : HState}
@@ -75,12 +75,12 @@ theorem evalChain_finish {n : Nat} {w w' w1 w3 : World} {absolute : Bool} {acts 
   split at ha
   · rename_i hv
     simp only [hv, ↓reduceIte] at ha ⊢
-    simp only [ha, finish, admit]
+    simp only [ha, finish, admitTo]
     generalize cmdH _ _ _ _ = c; cases c <;> rfl
   · rename_i hv
     simp only [hv] at ha ⊢
     simp only [Bool.false_eq_true, ↓reduceIte] at ha ⊢ 
-    simp only [ha, finish, admit]
+    simp only [ha, finish, admitTo]
     generalize cmdH _ _ _ _ = c; cases c <;> rfl
 
 theorem evalArgs_zero (w : World) (args : List Arg) : evalArgs 0 w args = (w, none) := by
@@ -318,9 +318,9 @@ theorem store_stage {w : World} {lo : Nat} {k : Str} {st : HState} (i : Inv w) (
 
 theorem admit_stage {w : World} {lo : Nat} {k : Str} {st : HState} {ok : Bool} (i : Inv w)
     (o : Own w lo (cellsState w.heap st)) :
-    Stage lo w (cellsState w.heap st) (admit w k st ok) (cellsState w.heap st) ∧
-      cellsState (admit w k st ok).heap st = cellsState w.heap st := by
-  unfold admit
+    Stage lo w (cellsState w.heap st) (admitTo w k st ok) (cellsState w.heap st) ∧
+      cellsState (admitTo w k st ok).heap st = cellsState w.heap st := by
+  unfold admitTo
   split
   · exact store_stage i o
   · exact ⟨Stage.filter i o _, rfl⟩
